@@ -60,7 +60,15 @@ def det_rerun_changes_udef(f):
     return bool(b) and a != b
 
 
-DETECTORS = {"false_claim": det_false_claim, "hang": det_hang, "lint_count": det_lint_count,
+def det_varies(f):
+    """repeated runs of the witness give different outputs"""
+    from common import run_lines_isolated as rl
+    reqs = [pipe_req("run", [("m.s", f["input"])])] * f.get("runs", 10)
+    outs = set("\n".join(b) for b in rl(RVH_DEBUG, reqs, chunk=50))
+    return len(outs) > 1
+
+
+DETECTORS = {"varies": det_varies, "false_claim": det_false_claim, "hang": det_hang, "lint_count": det_lint_count,
              "cfgerr": det_cfgerr, "rerun_changes_udef": det_rerun_changes_udef}
 
 
